@@ -26,6 +26,15 @@ every counted object recomputed in the ego frame, and stability of earlier frame
 identities are evaluated whenever the ground truths of the frame are pairwise distinct (exact comparison of the
 case's coordinates), which includes near-duplicate 'twin' ground truths a fraction of a metre apart in scenes
 ~1e5 m from the map origin (`_gen_twin_case`, corpus): distinct objects stay distinct at any magnitude.
+
+Numeric types (`_nt`, `_decorate`, `_gen_typed_case`): every numeric field of a case (object position / size / velocity /
+score / yaw / point count, ego translation and yaw, the bounds, confidence and point-number lists of the manager's and the
+critical filter, pass/fail and matching thresholds, matchable radii) can be handed to the real code as Python int, numpy
+int64 / int32, numpy float32 or float64 instead of a Python float - only where the conversion is exact, so the case, the
+independent reference and the model requests are the same mathematical objects whatever the letters say.  A quarter of
+the ordinary cases carry such letters; a further family draws scenes on the integer (1/2, 1/8) grid of the frame the
+objects are expressed in - for MAP scenes under an ego pose that is not on the grid - and moves a critical bound strictly
+between one object's true ego-relative coordinate (distance) and that coordinate rounded to a neighbouring integer.
 """
 from __future__ import annotations
 
@@ -70,6 +79,13 @@ RULE = (
     "detection and FP validation; plus a family of 'twin' ground truths (same label/orientation/height/time, planar offset "
     "1/1024..1 m, mostly 0.2..1 m; one matched / both unmatched / both matched / matched-but-failing; ordinary and FP-labelled) "
     "placed clear of the bounds inside both regions, in BASE_LINK and in MAP scenes with ego translations up to 1.2e5 m on both axes. "
+    "Numeric type variants: a quarter of these cases, 40% of the managers and a separate family (240 quick / 1600 thorough, 2/3 MAP) carry "
+    "per-number type letters (Python int, numpy int64/int32/float32/float64; honoured only when the conversion is exact) for object "
+    "position/size/velocity/score/yaw/points, ego translation/yaw, both filters' bound/confidence/point lists, pass/fail and matching "
+    "thresholds, radii; the family draws objects on the integer (1/2, 1/8) grid of their own frame (map coordinates for MAP, ego pose "
+    "mostly off the grid with yaw != 0), makes bounds/thresholds integral in a third of the frames and in 3/4 of the frames moves one "
+    "critical bound strictly between an object's true ego-relative coordinate (box) or distance (ring) and its value after rounding "
+    "the coordinates down / up / to nearest (>= 0.0125 clear of both). "
     "Non-trivial = at least one estimate or ground truth reaches the matcher; distinct = distinct canonical case JSON"
 )
 TRUSTED = [
@@ -81,6 +97,11 @@ TRUSTED = [
     "(strict |x|<max_x, |y|<max_y or min<hypot<max per label; unknown-labelled estimates use the mean bound; FP-labelled objects always pass)",
     "ego pose applied by the harness in floats for the MAP rendering (decisions closer than 1e-7 to a bound are skipped)",
     "pyquaternion Quaternion.__eq__ (np.allclose) as orientation equality inside DynamicObject.__eq__",
+    "numeric types: int / numpy.int64 / numpy.int32 / numpy.float32 / numpy.float64 conversions of a float are value-preserving when "
+    "`float(converted) == original` (checked per number); numpy's comparison and mean of float32 scalars may run in single precision, "
+    "so frames holding a float32 keep 1e-3 (instead of 1e-7) clear of every bound",
+    "scenes fixed in map coordinates (`mx`, `my`): the ego-relative coordinates the reference decides on are the inverse ego pose applied "
+    "in floats (error ~1e-12 m, far below the 1e-7 skip margin)",
 ]
 ASSUMPTIONS = [
     "ground truths of a frame are a set: no two equal under DynamicObject.__eq__ (time, label, position, orientation); "
@@ -93,6 +114,8 @@ ASSUMPTIONS = [
     "FP-labelled ground truths are exempt from every range bound by _is_target_object (returns True first): they are "
     "'critical' wherever they are; the oracle's region test applies to estimates and ordinary ground truths",
     "ego poses are yaw + translation",
+    "positions / sizes / velocities are tuples of real numbers (the documented container); numpy arrays as `position` are outside the "
+    "domain: DynamicObject.__eq__ raises ValueError on them in the unchanged code (64 of 76 corpus scenes)",
 ]
 
 EST_LABELS = ["car", "bicycle", "pedestrian", "motorbike", "unknown"]
@@ -154,7 +177,7 @@ def _manager(case):
     from perception_eval.manager import PerceptionEvaluationManager
     import perception_eval.manager._evaluation_manager_base as mb
 
-    key = repr((case["task"], case["frame"], case["policy"], sorted(case["mgr"].items(), key=str)))
+    key = repr((case["task"], case["frame"], case["policy"], sorted(case["mgr"].items(), key=str)))  # incl. the type letters
     if key in _MGR_CACHE:
         return _MGR_CACHE[key]
     if _TMP is None:
@@ -164,20 +187,21 @@ def _manager(case):
     d = {
         "evaluation_task": case["task"], "target_labels": list(mg["labels"]), "label_prefix": "autoware",
         "merge_similar_labels": False, "matching_label_policy": case["policy"],
-        "center_distance_thresholds": [[1.0] * n], "plane_distance_thresholds": [[2.0] * n],
+        "center_distance_thresholds": [_nt_list([1.0] * n, _tag(mg, "thr"))], "plane_distance_thresholds": [_nt_list([2.0] * n, _tag(mg, "thr"))],
         "iou_2d_thresholds": [[0.5] * n], "iou_3d_thresholds": [[0.5] * n],
-        "min_point_numbers": list(mg["min_points"]) if mg["min_points"] is not None else ([0] * n if case["task"] == "detection" else None),
+        "min_point_numbers": _nt_list(mg["min_points"], _tag(mg, "mp").replace("f", "i")) if mg["min_points"] is not None
+        else ([0] * n if case["task"] == "detection" else None),
     }
     if mg["mode"] == "box":
-        d["max_x_position"] = list(mg["a"])
-        d["max_y_position"] = list(mg["b"])
+        d["max_x_position"] = _nt_list(mg["a"], _tag(mg, "a"))
+        d["max_y_position"] = _nt_list(mg["b"], _tag(mg, "b"))
     else:
-        d["max_distance"] = list(mg["a"])
-        d["min_distance"] = list(mg["b"])
+        d["max_distance"] = _nt_list(mg["a"], _tag(mg, "a"))
+        d["min_distance"] = _nt_list(mg["b"], _tag(mg, "b"))
     if mg.get("conf") is not None:
-        d["confidence_threshold"] = mg["conf"]
+        d["confidence_threshold"] = _nt(mg["conf"], _tag(mg, "conf"))
     if mg.get("radii") is not None:
-        d["max_matchable_radii"] = mg["radii"]
+        d["max_matchable_radii"] = _nt(mg["radii"], _tag(mg, "radii"))
     cfg = PerceptionEvaluationConfig(
         dataset_paths=[str(core.REPO / "perception_eval" / "test" / "sample_data")], frame_id=case["frame"],
         result_root_directory=_TMP, evaluation_config_dict=d,
@@ -196,6 +220,68 @@ def _manager(case):
     return cfg, m
 
 
+# ---- numeric type variants ---------------------------------------------------------------------------------
+# The library's signatures say `float`, and (PEP 484) an int is acceptable wherever a float is; numpy scalars
+# are `numbers.Real` (what `check_thresholds` asks of a threshold).  A case may therefore carry, next to every
+# numeric field, the TYPE in which the number is handed to the real code (`"nt"` entries, one letter per number):
+#   f  Python float (default)   i  Python int   I  numpy.int64   j  numpy.int32   s  numpy.float32   d  numpy.float64
+# A letter is honoured only when the conversion is EXACT (int kinds: the value is integral; float32: the value is
+# representable), otherwise the number stays a Python float - so the mathematical content of a case, hence the
+# independent reference and the model requests, never depend on the letters.  Containers keep the documented
+# shape (position / size / velocity: tuples; bounds and thresholds: lists).  numpy ARRAYS as positions are not
+# generated: `DynamicObject.__eq__` (`self.state.position == other.state.position`) raises on them in the
+# unchanged code, the documented type is a tuple.
+NT_LETTERS = "fiIjsd"
+
+
+def _nt(v, letter: str):
+    """the number `v` in the numeric type named by `letter` if that conversion is exact, else as a float"""
+    import numpy as np
+
+    v = float(v)
+    if letter in "iIj":
+        if v != math.floor(v) or abs(v) >= 2 ** 31:
+            return v
+        return int(v) if letter == "i" else np.int64(int(v)) if letter == "I" else np.int32(int(v))
+    if letter == "s":
+        w = np.float32(v)
+        return w if float(w) == v else v
+    if letter == "d":
+        return np.float64(v)
+    return v
+
+
+def _nt_list(vals, letter: Optional[str]):
+    return [float(v) for v in vals] if not letter or letter == "f" else [_nt(v, letter) for v in vals]
+
+
+def _tag(d, key: str, n: int = 1) -> str:
+    """the letters of field `key` of the `nt` entry of `d`, padded with 'f'"""
+    t = ((d.get("nt") or {}).get(key) or "") if isinstance(d.get("nt"), dict) else ""
+    return (t + "f" * n)[:n]
+
+
+def _position(o, fr, frame: str) -> tuple:
+    """the position tuple handed to DynamicObject: ego-relative in BASE_LINK; in MAP the map coordinates the case
+    fixes (`mx`, `my`: scenes drawn on a map grid) or else the ego pose applied in floats; typed by nt['p']"""
+    x, y, z = float(o["x"]), float(o["y"]), float(o["z"])
+    if frame == "map":
+        if "mx" in o:
+            x, y = float(o["mx"]), float(o["my"])
+        else:
+            e = fr["ego"]
+            c, s = math.cos(e["yaw"]), math.sin(e["yaw"])
+            x, y = c * x - s * y + e["tx"], s * x + c * y + e["ty"]
+    return tuple(_nt(v, t) for v, t in zip((x, y, z), _tag(o, "p", 3)))
+
+
+def _ego_pose(e):
+    """(translation tuple, yaw) of the ego pose in the numeric types of e['nt'] (letters: tx, ty, z, yaw)"""
+    t = (e.get("nt") or "ffff") if isinstance(e.get("nt"), str) else "ffff"
+    t = (t + "ffff")[:4]
+    return (_nt(e["tx"], t[0]), _nt(e["ty"], t[1]), _nt(0.0, t[2])), _nt(e["yaw"], t[3] if t[3] in "fid" else "f")
+
+
 def _mk_object(o, is_gt: bool, fr, frame: str, time: int):
     """real DynamicObject from the ego-relative description `o`, rendered in `frame`"""
     from pyquaternion import Quaternion
@@ -205,20 +291,21 @@ def _mk_object(o, is_gt: bool, fr, frame: str, time: int):
     from perception_eval.common.shape import Shape, ShapeType
 
     lab = _labels()[o["label"]]
-    x, y, z, yaw = float(o["x"]), float(o["y"]), float(o["z"]), float(o["yaw"])
+    yaw = float(o["yaw"])
     if frame == "map":
-        e = fr["ego"]
-        c, s = math.cos(e["yaw"]), math.sin(e["yaw"])
-        x, y = c * x - s * y + e["tx"], s * x + c * y + e["ty"]
-        yaw = yaw + e["yaw"]
+        yaw = yaw + fr["ego"]["yaw"]
         fid = FrameID.MAP
     else:
         fid = FrameID.BASE_LINK
+    ty = _tag(o, "y")
+    size = tuple(_nt(o[k], t) for k, t in zip(("w", "l", "h"), _tag(o, "s", 3)))
+    vel = tuple(_nt(0.0, t) for t in _tag(o, "v", 3))
+    pts = _nt(int(o.get("pts", 10)), _tag(o, "n").replace("f", "i"))
     return DynamicObject(
-        time, fid, (x, y, z), Quaternion(axis=[0, 0, 1], angle=yaw),
-        Shape(ShapeType.BOUNDING_BOX, (float(o["w"]), float(o["l"]), float(o["h"]))), (0.0, 0.0, 0.0),
-        1.0 if is_gt else float(o["score"]), Label(lab, "false_positive" if o["label"] == "FP" else o["label"], []),
-        uuid=("g" if is_gt else "e") + str(o["id"]), pointcloud_num=int(o.get("pts", 10)),
+        time, fid, _position(o, fr, frame), Quaternion(axis=[0, 0, 1], angle=_nt(yaw, ty if ty in "fid" else "f")),
+        Shape(ShapeType.BOUNDING_BOX, size), vel,
+        _nt(1.0 if is_gt else o["score"], _tag(o, "c")), Label(lab, "false_positive" if o["label"] == "FP" else o["label"], []),
+        uuid=("g" if is_gt else "e") + str(o["id"]), pointcloud_num=pts,
     )
 
 
@@ -312,10 +399,8 @@ def run_impl(case) -> dict:
                 frames.append(by_time[fr["time"]])
                 continue
             e = fr["ego"]
-            ego2map = HomogeneousMatrix(
-                (float(e["tx"]), float(e["ty"]), 0.0), Quaternion(axis=[0, 0, 1], angle=float(e["yaw"])),
-                FrameID.BASE_LINK, FrameID.MAP,
-            )
+            trans, eyaw = _ego_pose(e)
+            ego2map = HomogeneousMatrix(trans, Quaternion(axis=[0, 0, 1], angle=eyaw), FrameID.BASE_LINK, FrameID.MAP)
             gts = [_mk_object(g, True, fr, case["frame"], fr["time"]) for g in fr["gts"]]
             frames.append(FrameGroundTruth(fr["time"], str(len(frames)), gts, transforms=[ego2map]))
             from harness import builders as _B  # registry with a history (replaced ego pose), see builders.give_history
@@ -331,20 +416,25 @@ def run_impl(case) -> dict:
             ests = [_mk_object(o, False, fr, case["frame"], fr["time"]) for o in fr["ests"]]
             cr, pf = fr["crit"], fr["pf"]
             kw = {}
+            ca, cb = _nt_list(cr["a"], _tag(cr, "a")), _nt_list(cr["b"], _tag(cr, "b"))
             if cr["mode"] == "box":
-                kw["max_x_position_list"], kw["max_y_position_list"] = list(cr["a"]), list(cr["b"])
+                kw["max_x_position_list"], kw["max_y_position_list"] = ca, cb
             else:
-                kw["max_distance_list"], kw["min_distance_list"] = list(cr["a"]), list(cr["b"])
+                kw["max_distance_list"], kw["min_distance_list"] = ca, cb
+            cmp_, cconf = cr.get("min_points"), cr.get("conf")
             ccfg = CriticalObjectFilterConfig(
-                cfg, list(cr["labels"]), min_point_numbers=cr.get("min_points"),
-                confidence_threshold_list=cr.get("conf"), **kw,
+                cfg, list(cr["labels"]),
+                min_point_numbers=None if cmp_ is None else _nt_list(cmp_, _tag(cr, "mp").replace("f", "i")),
+                confidence_threshold_list=None if cconf is None else _nt_list(cconf, _tag(cr, "conf")), **kw,
             )
+            pft = pf.get("nt") if isinstance(pf.get("nt"), str) else None
             if pf["labels"] is None:
                 names = _all_label_names()
-                thr = None if pf["thr"] is None else [float(pf["thr"].get(nm, pf["thr"]["default"])) for nm in names]
+                thr = None if pf["thr"] is None else _nt_list([pf["thr"].get(nm, pf["thr"]["default"]) for nm in names], pft)
                 pcfg = PerceptionPassFailConfig(cfg, None, matching_threshold_list=thr)
             else:
-                pcfg = PerceptionPassFailConfig(cfg, list(pf["labels"]), matching_threshold_list=pf["thr"])
+                pcfg = PerceptionPassFailConfig(cfg, list(pf["labels"]),
+                                                matching_threshold_list=None if pf["thr"] is None else _nt_list(pf["thr"], pft))
             # the matcher's output before the critical filter (same deterministic call add_frame_result makes)
             pre, pre_frame = m._filter_objects(ests, gtf)
             matcher = [
@@ -380,14 +470,15 @@ def _F(x) -> Fraction:
 class Margins:
     """records how close every decision is to its boundary; `exact_ok` = the real comparison is exact"""
 
-    def __init__(self) -> None:
+    def __init__(self, tol: float = NEAR) -> None:
         self.near = False
         self.ties = 0
+        self.tol = tol
 
     def note(self, margin: float, exact_ok: bool) -> None:
         if margin == 0 and exact_ok:
             self.ties += 1
-        elif margin < NEAR:
+        elif margin < self.tol:
             self.near = True
 
 
@@ -479,15 +570,36 @@ def eq_keys(fr) -> Dict[int, int]:
     seen: Dict[Tuple, int] = {}
     out = {}
     for g in fr["gts"]:
-        k = (g["label"], float(g["x"]), float(g["y"]), float(g["z"]), float(g["yaw"]))
+        k = (g["label"], float(g.get("mx", g["x"])), float(g.get("my", g["y"])), float(g["z"]), float(g["yaw"]))
         seen.setdefault(k, g["id"])
         out[g["id"]] = seen[k]
     return out
 
 
+NEAR32 = 1e-3
+
+
+def _letters_of(d) -> str:
+    nt = d.get("nt") if isinstance(d, dict) else None
+    if isinstance(nt, str):
+        return nt
+    if isinstance(nt, dict):
+        return "".join(str(v) for v in nt.values())
+    return ""
+
+
+def frame_tol(case, fr) -> float:
+    """how far from a bound a decision must be to be compared.  Where a number is handed over as numpy.float32, numpy
+    may carry out a comparison or a mean in single precision (`np.float32(x) < 20.1` rounds 20.1 to float32; the mean
+    of a list of float32 bounds is a float32), which is as legitimate as the double-precision evaluation: such frames
+    keep 1e-3 clear of every bound (exact ties between representable numbers are still compared)."""
+    parts = [case["mgr"], fr["ego"], fr["crit"], fr["pf"]] + list(fr["ests"]) + list(fr["gts"])
+    return NEAR32 if any("s" in _letters_of(d) for d in parts) else NEAR
+
+
 def frame_facts(case, fr) -> dict:
     """everything the model needs that does not come from the matcher, plus the margins"""
-    M = Margins()
+    M = Margins(frame_tol(case, fr))
     exact = case["frame"] == "base_link"
     mg = dict(case["mgr"])
     mgr_e = {o["id"]: is_target(o, False, mg, exact, M) for o in fr["ests"]}
@@ -802,6 +914,7 @@ def branches(case, out) -> List[str]:
             if g["label"] == "FP" and g["id"] in o["gts"] and outside_all_regions(g, fr["crit"]):
                 br.append("fp-labelled-gt-beyond-every-bound-counted")
         br.extend(_twin_branches(case, fr, o, ff))
+        br.extend(_type_branches(case, fr, ff))
         if any(not ff["mgr_g"][g["id"]] for g in fr["gts"]) or any(not ff["mgr_e"][e["id"]] for e in fr["ests"]):
             br.append("manager-filter-drops")
         if any(ff["mgr_g"][g["id"]] and not ff["crit_g"][g["id"]] for g in fr["gts"]):
@@ -1089,6 +1202,61 @@ def _gen_twin_case(rng, pool, tier):
     return case
 
 
+def _kind(v) -> str:
+    import numpy as np
+
+    if isinstance(v, (int, np.integer)):
+        return "int"
+    if isinstance(v, np.float32):
+        return "f32"
+    return "float"
+
+
+def _type_branches(case, fr, ff) -> List[str]:
+    """histogram keys of the numeric types actually handed to the real code in this frame"""
+    br = []
+    e = fr["ego"]
+    trans, eyaw = _ego_pose(e)
+    ego_off = float(e["yaw"]) != 0.0 or float(e["tx"]) != math.floor(float(e["tx"])) or float(e["ty"]) != math.floor(float(e["ty"]))
+    if any(_kind(v) != "float" for v in trans) or _kind(eyaw) != "float":
+        br.append("types:ego:" + "/".join(sorted({_kind(v) for v in trans + (eyaw,)})))
+    for o in fr["ests"] + fr["gts"]:
+        ks = {_kind(v) for v in _position(o, fr, case["frame"])}
+        if ks != {"float"}:
+            k = "all-" + next(iter(ks)) if len(ks) == 1 else "mixed"
+            br.append(f"types:pos:{k}:{case['frame']}")
+            if k == "all-int" and case["frame"] == "map" and ego_off:
+                br.append("types:pos:all-int:map:ego-pose-not-integral")
+        if any(_kind(_nt(o[f], t)) != "float" for f, t in zip(("w", "l", "h"), _tag(o, "s", 3))):
+            br.append("types:size:non-float")
+        if "score" in o and _kind(_nt(o["score"], _tag(o, "c"))) != "float":
+            br.append("types:score:non-float")
+    for nm, P in (("crit", fr["crit"]), ("mgr", case["mgr"])):
+        for key in ("a", "b", "conf"):
+            v = P.get(key)
+            if v is None:
+                continue
+            ks = {_kind(_nt(t, _tag(P, key))) for t in (v if isinstance(v, list) else [v])}
+            if ks != {"float"}:
+                br.append(f"types:{nm}:{key}:" + "/".join(sorted(ks)))
+    if fr["pf"].get("nt") and fr["pf"]["thr"] is not None:
+        vals = fr["pf"]["thr"].values() if isinstance(fr["pf"]["thr"], dict) else fr["pf"]["thr"]
+        ks = {_kind(_nt(t, fr["pf"]["nt"])) for t in vals}
+        if ks != {"float"}:
+            br.append("types:pf-thr:" + "/".join(sorted(ks)))
+    if fr.get("between"):
+        oid, key = fr["between"]
+        o = ff["est"].get(oid) or ff["gt"].get(oid)
+        if o is not None:
+            inside = (ff["crit_e"] if oid <= 100 else ff["crit_g"])[oid]
+            ints = {_kind(v) for v in _position(o, fr, case["frame"])} == {"int"}
+            br.append(f"types:bound-between-true-and-rounded:{fr['crit']['mode']}:{'inside' if inside else 'outside'}"
+                      + (":int-pos" if ints else "") + (":skipped" if ff["near"] else ""))
+    if frame_tol(case, fr) != NEAR:
+        br.append("types:float32-present(tol 1e-3)")
+    return br
+
+
 def _twin_branches(case, fr, o, ff) -> List[str]:
     """histogram keys of the twin pairs of a frame, from what the real code reported"""
     br = []
@@ -1115,6 +1283,179 @@ def _twin_branches(case, fr, o, ff) -> List[str]:
     return br
 
 
+# ---- numeric type variants (see `_nt`): decoration of cases, and scenes drawn on an integer map grid ----------------
+# (1) `_decorate`: any case may carry type letters for every numeric field (object position / size / velocity / score /
+#     yaw / point count, ego translation and yaw, the bound / confidence / point-number lists of both filters, the
+#     pass/fail thresholds, the manager's matching thresholds and radii).  Values are unchanged, so nothing else moves.
+# (2) `_gen_typed_case`: scenes whose coordinates are integral (or on a 1/2, 1/8 grid) IN THE FRAME THEY ARE EXPRESSED
+#     IN - ego-relative for BASE_LINK, map coordinates for MAP, where the ego pose is mostly NOT integral (translation
+#     off the grid, yaw != 0), so that the ego-relative coordinates the filters decide on are not integral although
+#     every number handed over is.  A critical bound is then placed strictly between the true ego-relative coordinate
+#     (or distance) of one object and that coordinate rounded to a neighbouring integer (down, up, nearest; the distance
+#     of the component-wise rounded point): any evaluation that passes through the integer type of the inputs decides
+#     that object differently.  Integral bounds / thresholds are made frequent as well.
+
+def _letters(rng, n: int, p_uniform: float) -> str:
+    u = rng.random()
+    if u < p_uniform:
+        return rng.choice("iiiIjsd") * n      # the whole tuple / list in one type (decides the dtype of np.asarray)
+    if u < p_uniform + 0.25:
+        return "".join(rng.choice(NT_LETTERS) for _ in range(n))
+    return "f" * n
+
+
+def _decorate_obj(rng, o, pu: float) -> None:
+    o["nt"] = {"p": _letters(rng, 3, pu), "s": _letters(rng, 3, pu * 0.6), "v": _letters(rng, 3, pu * 0.6),
+               "c": _letters(rng, 1, pu * 0.6), "y": rng.choice("fffid"), "n": rng.choice("iiIj")}
+
+
+def _decorate_filter(rng, P, pu: float, mgr: bool) -> None:
+    nt = {"a": _letters(rng, 1, pu), "b": _letters(rng, 1, pu), "conf": _letters(rng, 1, pu), "mp": rng.choice("iiIj")}
+    if mgr:
+        nt["radii"] = _letters(rng, 1, pu)
+        nt["thr"] = _letters(rng, 1, pu)
+    P["nt"] = nt
+
+
+def _decorate(rng, case, p_obj: float, pu: float) -> None:
+    """type letters for the numeric fields of the frames of `case` (the manager's are drawn per pool entry)"""
+    for fr in case["frames"]:
+        for o in fr["ests"] + fr["gts"]:
+            if rng.random() < p_obj:
+                _decorate_obj(rng, o, pu)
+        if rng.random() < p_obj:
+            fr["ego"]["nt"] = _letters(rng, 3, pu) + rng.choice("fffid")
+        if rng.random() < p_obj:
+            _decorate_filter(rng, fr["crit"], pu, False)
+        if rng.random() < p_obj:
+            fr["pf"]["nt"] = _letters(rng, 1, pu)
+
+
+def _typed_ego(rng, frame):
+    """ego pose of a typed scene: mostly off every grid the objects are on (non-integral translation, yaw != 0)"""
+    u = rng.random()
+    if u < 0.12:
+        return {"yaw": rng.choice([0.0, 0.0, 1.0, -2.0, 0.5, _grid(rng, -3, 3, 64)]),  # integral translation, any yaw
+                "tx": float(rng.randint(-2048, 2048)), "ty": float(rng.randint(-2048, 2048))}
+    yaw = rng.choice([_grid(rng, -3, 3, 64) or 0.5, round(rng.uniform(-3.1, 3.1), 3) or 0.3, 0.0])
+    big = 100000 if (frame == "map" and rng.random() < 0.15) else 2048
+    def t():  # noqa: E306
+        v = rng.random()
+        if v < 0.45:
+            return rng.randint(-big, big) + rng.choice([0.125, 0.25, 0.375, 0.5, 0.625, 0.75, 0.875])
+        if v < 0.9:
+            return round(rng.uniform(-big, big), 2)
+        return float(rng.randint(-big, big))
+    return {"yaw": yaw, "tx": t(), "ty": t()}
+
+
+def _to_map(e, x, y):
+    c, s = math.cos(e["yaw"]), math.sin(e["yaw"])
+    return c * x - s * y + e["tx"], s * x + c * y + e["ty"]
+
+
+def _from_map(e, mx, my):
+    c, s = math.cos(e["yaw"]), math.sin(e["yaw"])
+    dx, dy = mx - e["tx"], my - e["ty"]
+    return c * dx + s * dy, -s * dx + c * dy
+
+
+def _snap_frame(rng, fr, frame: str, den: int) -> None:
+    """move every object of the frame onto the 1/den grid of the frame it is expressed in (ground truths stay distinct)"""
+    taken = set()
+    e = fr["ego"]
+    for o in fr["gts"] + fr["ests"]:
+        is_gt = o["id"] > 100
+        if frame == "map":
+            X, Y = _to_map(e, float(o["x"]), float(o["y"]))
+        else:
+            X, Y = float(o["x"]), float(o["y"])
+        X, Y = round(X * den) / den, round(Y * den) / den
+        if den == 1:
+            o["z"] = float(math.floor(float(o["z"])))
+        while is_gt and (o["label"], X, Y) in taken:
+            X += 1.0
+        if is_gt:
+            taken.add((o["label"], X, Y))
+        if frame == "map":
+            o["mx"], o["my"] = X + 0.0, Y + 0.0
+            o["x"], o["y"] = _from_map(e, X, Y)
+        else:
+            o["x"], o["y"] = X + 0.0, Y + 0.0
+        if den == 1 and rng.random() < 0.5:
+            for k in ("w", "l", "h"):
+                o[k] = float(max(1, round(float(o[k]))))
+
+
+def _roundings(v: float):
+    return [float(math.floor(v)), float(math.floor(v)), float(math.ceil(v)), float(round(v))]
+
+
+def _bound_between(rng, fr) -> bool:
+    """move one bound of the frame's critical filter strictly between the true ego-relative coordinate (distance) of an
+    object and that coordinate (distance) after rounding to a neighbouring integer; 0.0125 clear of both"""
+    cr = fr["crit"]
+    cands = [o for o in fr["ests"] + fr["gts"]
+             if o["label"] != "FP" and (o["label"] in cr["labels"] or (o["label"] == "unknown" and o["id"] <= 100))]
+    rng.shuffle(cands)
+    for o in cands[:6]:
+        x, y = abs(float(o["x"])), abs(float(o["y"]))
+        if cr["mode"] == "box":
+            key = rng.choice(["a", "b"])
+            v = x if key == "a" else y
+            alt = rng.choice(_roundings(v))
+        else:
+            key = rng.choice(["a", "a", "b"])
+            v = math.hypot(x, y)
+            f = rng.choice([math.floor, math.floor, math.ceil, round])
+            alt = math.hypot(f(x), f(y))
+        if abs(v - alt) < 0.05 or min(v, alt) < 0.5:
+            continue
+        b = v + (alt - v) * rng.choice([0.25, 0.375, 0.5, 0.625, 0.75])
+        lst = [float(t) for t in cr[key]]
+        other = [float(t) for t in cr["b" if key == "a" else "a"]]
+        if cr["mode"] == "ring" and ((key == "a" and b <= max(other)) or (key == "b" and b >= min(other))):
+            continue
+        if o["label"] in cr["labels"] and rng.random() < 0.5:
+            lst[cr["labels"].index(o["label"])] = b
+        else:
+            lst = [b] * len(lst)
+        cr[key] = lst
+        fr["between"] = [o["id"], key]
+        return True
+    return False
+
+
+def _gen_typed_case(rng, pool, tier, frame=None):
+    cands = [p for p in pool if frame is None or p[1] == frame]
+    task, frame, policy, mgr = rng.choice(cands or pool)
+    case = {"kind": "history", "task": task, "frame": frame, "policy": policy, "mgr": mgr, "frames": []}
+    den = rng.choice([1, 1, 1, 1, 2, 8])
+    for k in range(rng.choice([1, 1, 1, 2, 3])):
+        fr = _gen_frame(rng, case, k, tier)
+        fr["gts"], fr["ests"] = fr["gts"][: rng.choice([1, 2, 4, 6, 8])], fr["ests"][: rng.choice([0, 1, 2, 4, 6])]
+        fr["ego"] = _typed_ego(rng, frame)
+        cr = fr["crit"]
+        if rng.random() < 0.35:  # integral bounds / thresholds
+            cr["a"] = [float(max(1, round(float(t)))) for t in cr["a"]]
+            cr["b"] = [float(max(1 if cr["mode"] == "box" else 0, round(float(t)))) for t in cr["b"]]
+            if cr["mode"] == "ring":
+                cr["a"] = [max(a, max(cr["b"]) + 1.0) for a in cr["a"]]
+            if fr["pf"]["thr"] is not None and fr["pf"]["labels"] is not None:
+                fr["pf"]["thr"] = [float(max(1, round(float(t)))) for t in fr["pf"]["thr"]]
+        _snap_frame(rng, fr, frame, den)
+        if rng.random() < 0.75:
+            _bound_between(rng, fr)
+        case["frames"].append(fr)
+    _decorate(rng, case, 0.8, 0.6)
+    for fr in case["frames"]:  # the object the bound was placed for: mostly handed over in one integer / single-precision type
+        if fr.get("between") and rng.random() < 0.75:
+            for o in fr["ests"] + fr["gts"]:
+                if o["id"] == fr["between"][0]:
+                    o.setdefault("nt", {})["p"] = rng.choice(["iii", "iii", "III", "jjj", "iIj", "sss"])
+    return case
+
+
 def generate(rng, tier) -> list:
     n_pool = 36 if tier == "quick" else 150
     pool = []
@@ -1127,6 +1468,17 @@ def generate(rng, tier) -> list:
     # twin ground truths (drawn after the base cases, which therefore stay what they were for a given seed)
     n_twin = int(os.environ.get("C03_TWIN_CASES", 0)) or (220 if tier == "quick" else 1500)
     cases += [_gen_twin_case(rng, pool, tier) for _ in range(n_twin)]
+    # numeric type variants (drawn after everything else): scenes on an integer grid of their own frame (two thirds of them
+    # in the MAP frame), type letters on a quarter of the cases generated above, and on 40% of the managers of the pool
+    n_typed = int(os.environ.get("C03_TYPED_CASES", 0)) or (240 if tier == "quick" else 1600)
+    typed = [_gen_typed_case(rng, pool, tier, "map" if k % 3 else "base_link") for k in range(n_typed)]
+    for c in cases:
+        if rng.random() < 0.25:
+            _decorate(rng, c, 0.6, 0.4)
+    for _t, _f, _p, mgr in pool:
+        if rng.random() < 0.4:
+            _decorate_filter(rng, mgr, 0.5, True)
+    cases += typed
     for k, c in enumerate(cases):  # a third of the cases also run the composed model end to end (no rng consumed)
         if k % 3 == 0:
             c["pipe"] = True
@@ -1221,6 +1573,45 @@ def corpus() -> list:
                 cs.append({"kind": "history", "task": task, "frame": frame, "policy": POLICIES[(n + j) % 3], "mgr": mgr,
                            "frames": [{"time": 100000, "ego": ego, "gts": copy.deepcopy(gts), "ests": copy.deepcopy(ests),
                                        "crit": crit30, "pf": pf, "twins": [[101, 102]] + ([[102, 103]] if len(gts) == 3 and gts[2]["label"] == gts[1]["label"] else [])}]})
+    # numeric types: a scene surveyed on an integer map grid (positions handed over as Python ints / numpy integers /
+    # float32), ego pose off the grid, x/y box whose bounds fall between the true ego-relative coordinate of some objects and
+    # that coordinate cut to an integer; the same scene with integer-typed bounds, thresholds and ego translation
+    ego = {"yaw": 0.3, "tx": 100.5, "ty": 50.25}
+    box = {"labels": L4, "mode": "box", "a": [20.2, 30.0, 30.0, 30.0], "b": [10.4, 30.0, 30.0, 30.0], "min_points": None, "conf": None}
+    sel = {"in": [], "x": [], "y": [], "out": []}
+    for gx in range(74, 128, 2):
+        for gy in range(30, 72, 2):
+            x, y = _from_map(ego, gx, gy)
+            ax, ay = abs(x), abs(y)
+            if min(abs(ax - 20.2), abs(ay - 10.4), ax - math.floor(ax), ay - math.floor(ay)) < 0.02:
+                continue
+            k = ("in" if ax < 20.2 and ay < 10.4 else "x" if math.floor(ax) < 20.2 < ax and ay < 10.4
+                 else "y" if math.floor(ay) < 10.4 < ay and ax < 20.2 else "out" if ax > 22 and ay > 12 else None)
+            if k and len(sel[k]) < 2:
+                sel[k].append((gx, gy, x, y))
+    pts = sel["in"] + sel["x"] + sel["y"] + sel["out"][:1]
+    for letters, ego_nt, crit_nt in (("iii", None, None), ("III", "fffd", {"a": "d", "b": "s"}), ("jij", None, {"a": "f", "b": "f"}),
+                                     ("sss", "sssf", None), ("iif", None, None), ("fff", None, None)):
+        gts = [_obj(101 + j, x, y, mx=float(gx), my=float(gy), nt={"p": letters, "s": "iii", "v": "iii", "c": "i", "y": "f", "n": "I"})
+               for j, (gx, gy, x, y) in enumerate(pts)]
+        ests = []
+        for j, (gx, gy, x, y) in enumerate(pts[::2]):
+            ests.append(_obj(1 + j, x, y, mx=float(gx), my=float(gy), score=0.875, nt={"p": letters, "s": "fff", "v": "fff", "c": "s", "y": "f", "n": "i"}))
+        frn_ = {"time": 100000, "ego": dict(ego, **({"nt": ego_nt} if ego_nt else {})), "gts": gts, "ests": ests,
+                "crit": dict(box, **({"nt": crit_nt} if crit_nt else {})), "pf": {"labels": ["car"], "thr": [1.0], "nt": "i"}}
+        for task in ("detection",):
+            cs.append({"kind": "history", "task": task, "frame": "map", "policy": "default",
+                       "mgr": dict(mgr, nt={"a": "i", "b": "I", "mp": "I", "thr": "i"}), "frames": [frn_]})
+    # the F2 scene again with every number that is integral handed over as an integer (both renderings), integral ego pose
+    fri = copy.deepcopy(fr)
+    fri["ego"] = {"yaw": 0.0, "tx": 1000.0, "ty": -2000.0, "nt": "iiii"}
+    for o in fri["gts"] + fri["ests"]:
+        o["nt"] = {"p": "iii", "s": "iii", "v": "iii", "c": "i", "y": "i", "n": "j"}
+    fri["crit"] = dict(crit30, nt={"a": "i", "b": "j", "conf": "i", "mp": "i"})
+    fri["pf"] = dict(pf2, nt="I")
+    for frame in ("map", "base_link"):
+        cs.append({"kind": "history", "task": "detection", "frame": frame, "policy": "default",
+                   "mgr": dict(mgr, nt={"a": "i", "b": "i", "mp": "j", "thr": "i", "radii": "i"}), "frames": [fri]})
     for c in cs:
         c["pipe"] = True
     return cs
@@ -1228,8 +1619,26 @@ def corpus() -> list:
 
 # =============================================================================== shrinking / search
 
+def _strip_types(case, what: str):
+    """`case` without the type letters of the objects / the frame-level fields / the manager (None if there are none)"""
+    c = copy.deepcopy(case)
+    hit = False
+    if what == "mgr":
+        c["mgr"] = dict(c["mgr"])
+        hit = c["mgr"].pop("nt", None) is not None
+    for fr in c["frames"]:
+        ds = fr["ests"] + fr["gts"] if what == "obj" else [fr["ego"], fr["crit"], fr["pf"]] if what == "frame" else []
+        for d in ds:
+            hit = (d.pop("nt", None) is not None) or hit
+    return c if hit else None
+
+
 def shrink(case):
     fs = case["frames"]
+    for what in ("mgr", "frame", "obj"):  # does the failure need the numeric types at all?
+        c = _strip_types(case, what)
+        if c is not None:
+            yield c
     if len(fs) > 1:
         for k in range(len(fs)):
             c = copy.deepcopy(case); del c["frames"][k]
@@ -1245,7 +1654,7 @@ def shrink(case):
                     if f2["time"] == fr["time"]:
                         del f2["gts"][j]
                 yield c
-        if fr["ego"]["yaw"] != 0.0 or fr["ego"]["tx"] != 0.0:
+        if (fr["ego"]["yaw"] != 0.0 or fr["ego"]["tx"] != 0.0) and not any("mx" in o for o in fr["ests"] + fr["gts"]):
             c = copy.deepcopy(case)
             for f2 in c["frames"]:
                 if f2["time"] == fr["time"]:
